@@ -12,6 +12,7 @@ import json, os, subprocess, sys, shutil, glob, time
 V = os.path.dirname(os.path.dirname(os.path.abspath(__file__)))
 WT = os.environ.get("MW_SCRATCH", "/tmp/mw-verify")
 ENV = dict(os.environ, CARGO_NET_OFFLINE="true", CARGO_TARGET_DIR=f"{WT}/target")
+MTAG = "-mut" + "".join(c for c in os.path.basename(WT) if c.isdigit())
 
 def sh(cmd, cwd=None, env=None, timeout=3600):
     p = subprocess.run(cmd, shell=True, cwd=cwd, env=env or ENV, capture_output=True, text=True, timeout=timeout)
@@ -99,7 +100,7 @@ def cmd_detect(i, checks):
     ok, o = apply(f"{d}/patch.diff")
     assert ok, o
     res = m.get("detect", {})
-    env = dict(os.environ, MW_REPO=WT, MW_TAG="-mut", CARGO_NET_OFFLINE="true")
+    env = dict(os.environ, MW_REPO=WT, MW_TAG=MTAG, CARGO_NET_OFFLINE="true")
     env.pop("CARGO_TARGET_DIR", None)
     for c in checks:
         t0 = time.time()
